@@ -874,11 +874,10 @@ func sizeCases(sz *cq.Set, r *rand.Rand) {
 	}
 	// kind 1: leaky bucket Write(payload length): result 1 = accepted, 0 = rejected with an error
 	for _, n := range []int{0, 1, 100, 1459, 1460, 1461, 1462, 2000, 65535} {
-		p := gcc.NewLeakyBucketPacer(50_000_000)
-		// never let the pacer goroutine dequeue: close it first (Write still enqueues)
-		_ = p.Close()
-		time.Sleep(2 * time.Millisecond)
+		// target bitrate 0: the pacer's budget stays 0, so its goroutine never dequeues what Write accepted
+		p := gcc.NewLeakyBucketPacer(0)
 		_, err := p.Write(&rtp.Header{Version: 2, SSRC: 1}, make([]byte, n), nil)
+		_ = p.Close()
 		res := 1
 		if err != nil {
 			res = 0
